@@ -27,7 +27,7 @@ import (
 type seToken struct {
 	Kind    string `json:"kind"`
 	Fit     string `json:"fit"`
-	Term    string `json:"term"`    // "lf", "crlf"
+	Term    string `json:"term"` // "lf", "crlf"
 	Variant int    `json:"variant"`
 	LongLen string `json:"longlen"` // for long: "eq", "plus1", "multi"
 }
